@@ -35,6 +35,14 @@ Check(e) ==
             /\ e.offset = 8 * e.i                             \* ... at byte 8i
             /\ e.iter_len = 512 /\ e.iter_mut_len = 512
             /\ e.empty = 0
+      [] e.op = "tbl_iter" ->      \* iterator adaptors address the same slots: nth(k) is slot k and consumes it
+            LET at(i) == IF i < 512 THEN e.vals[i + 1] ELSE OnesW
+                k == e.k
+                nst == (511 \div e.step) + 1
+            IN /\ e.got = << at(k), at(k + 1), at(k), at(k), at(k + 1) >>
+               /\ e.rest = 511 - k
+               /\ Len(e.stepped) = (IF nst < 5 THEN nst ELSE 5)
+               /\ \A j \in 1 .. Len(e.stepped) : e.stepped[j] = at((j - 1) * e.step)
       [] e.op = "tbl_zero" -> e.empty = 1 /\ e.nonzero_bytes = 0
       [] e.op = "tbl_one" -> e.empty_before = 0 /\ e.empty_after = 1 /\ e.nonzero_bytes = 0
       [] OTHER -> FALSE
